@@ -456,6 +456,8 @@ class SimGFile:
       raise self._e.AlreadyExistsError(None, None, f'file already exists: {dst}')
     try:
       d.rename(src, dst)
+    except FileNotFoundError:
+      raise self._nf(dst) from None
     except (IsADirectoryError, NotADirectoryError, OSError) as e:
       if isinstance(e, SimCrash):
         raise
